@@ -44,6 +44,10 @@ ADV_STEMS = ["r", "r1", "r_", "rr", "a", "ab", "a-b", "a.b", "_x", "x_", "q", "q
              "count_", "other_", "x-1", "y.z", "_", "__a", "hint", "hintx", "guidance_hint_x", "labelz", "jr", "itext", "output"]
 
 
+EXOTIC_STEMS = ["an\u0303o", "e\u0301cole", "a\u0308rger", "año", "école", "straße", "имя", "名前", "o\u0302te", "nai\u0308ve", "code", "zone", "Ωmega", "_x\u0327"]
+EXOTIC_NS = 'ex="http://example.org/ex" kb="http://kb.example/x"'
+
+
 class Names:
     def __init__(self, rng, style):
         self.rng = rng
@@ -56,7 +60,14 @@ class Names:
             st = self.style
             if st == "mixed":
                 st = self.rng.choice(["plain", "adv"])
-            if st == "plain":
+            if st == "exotic":
+                # names that are valid XML names but not plain ASCII words: decomposed letters (base + combining mark), composed non-ASCII letters,
+                # and names with a prefix that the form's `namespaces` setting declares (EXOTIC_NS)
+                base = self.rng.choice(EXOTIC_STEMS)
+                n = base if self.rng.random() < 0.6 else base + self.rng.choice(["1", "_b", "\u0301x", "é"])
+                if self.rng.random() < 0.3:
+                    n = self.rng.choice(["ex:", "kb:"]) + n
+            elif st == "plain":
                 base = self.rng.choice(PLAIN_NAMES)
                 n = base if self.rng.random() < 0.5 else f"{base}_{self.rng.randrange(1, 30)}"
             else:
